@@ -30,6 +30,10 @@ fn err_class(e: &str) -> String {
         let inner = &first[pos + 7..];
         let inner = inner.replace("(\"", ": ").replace("\")", "");
         let inner = inner.split('`').next().unwrap_or(&inner).to_string();
+        if let Some(p) = inner.find("Unknown table") {
+            // the table name is a generated one (set_xxxx)
+            return format!("{}Unknown table <name>", &inner[..p]);
+        }
         if let Some(p) = inner.find("InvalidExpression") {
             return format!("{}InvalidExpression: <column> is invalid", &inner[..p]);
         }
